@@ -30,6 +30,7 @@ type World struct {
 	specFuncs map[string]*SpecFunc
 	lemmas    []*Lemma
 	ifaceAlias map[string]string // interface method -> contract name
+	callbackAlias map[string]string // callback key -> callback key whose contract it shares
 	purePkgs  map[string]bool
 	globals   map[string]*globalInfo // key: ssa global String()
 	gnum      map[string]int
@@ -127,7 +128,7 @@ func loadWorld(repo string) (*World, error) {
 	prog.Build()
 	w := &World{repo: repo, prog: prog, pkgs: pkgs, fset: prog.Fset, fns: map[string]*ssa.Function{}, contracts: map[string]*Contract{},
 		specFuncs: map[string]*SpecFunc{}, globals: map[string]*globalInfo{}, gnum: map[string]int{}, typeTags: map[string]int{},
-		ifaceAlias: map[string]string{}, purePkgs: map[string]bool{}, allPkgs: map[string]*packages.Package{}, ghostFields: map[string]map[string]string{}, pools: map[string]string{}, poolPkg: map[string]string{}}
+		ifaceAlias: map[string]string{}, callbackAlias: map[string]string{}, purePkgs: map[string]bool{}, allPkgs: map[string]*packages.Package{}, ghostFields: map[string]map[string]string{}, pools: map[string]string{}, poolPkg: map[string]string{}}
 	packages.Visit(pkgs, nil, func(p *packages.Package) { w.allPkgs[p.PkgPath] = p })
 	for fn := range ssautil.AllFunctions(prog) {
 		if !inModule(fn) || len(fn.Blocks) == 0 {
